@@ -870,6 +870,16 @@ def hformat_cases(rnd, shard, nshards, nrandom):
         x = max(0, min(UMAX, x))
         out.append({'line': 'HF %d' % x, 'expect': model_hformat(x), 'kind': 'humansize',
                     'sig': sig('HFr', len(str(x)), str(x)[:3]), 'nt': True, 'outcome': 'fmt'})
+    # The same calls made by a program whose floating-point rounding mode is not
+    # the default one (fesetround: 1 upward, 2 downward, 3 toward zero): the form
+    # is defined on integers, so the answer must not change.
+    for c in list(out):
+        if rnd.random() < 0.5:
+            m = rnd.choice([1, 2, 3])
+            d = dict(c)
+            d['line'] = c['line'] + ' %d' % m
+            d['sig'] = sig('HFm', m, c['sig'])
+            out.append(d)
     return out
 
 
@@ -975,7 +985,7 @@ def _selftest():
 
 def build(ctx):
     objs = ctx.builder.lib('asan', SRCS)
-    return ctx.builder.driver('c16', 'asan', ['c16_num.c'], objs, libs=())
+    return ctx.builder.driver('c16', 'asan', ['c16_num.c'], objs, libs=('-lm',))
 
 
 def run(ctx):
